@@ -23,7 +23,8 @@ Inductive panic_kind :=
 | PUncomparable     (* == on uncomparable dynamic types *)
 | PNilDeref
 | PReflect
-| POutOfFuel.       (* model artefact: must be shown unreachable *)
+| POutOfFuel        (* model artefact: must be shown unreachable *)
+| PExcluded.        (* not a panic: the input is outside the property (string repetition beyond 2^20 bytes) *)
 
 Inductive outcome (A : Type) : Type :=
 | Ok (a : A)
@@ -45,4 +46,4 @@ Definition panic_name (k : panic_kind) : bytes :=
   | PIndex => "index" | PNoSpace => "nospace" | PInvalidValue => "invalidvalue"
   | PInvalidType => "invalidtype" | PAssert => "assert" | PLiteral => "literal"
   | PRepeat => "repeat" | PUncomparable => "uncomparable" | PNilDeref => "nilderef"
-  | PReflect => "reflect" | POutOfFuel => "OUTOFFUEL" end.
+  | PReflect => "reflect" | POutOfFuel => "OUTOFFUEL" | PExcluded => "EXCLUDED" end.
